@@ -826,6 +826,7 @@ Lemma inv1_join_check : forall s v c j, Inv1 s -> head_run s v -> Inv1 (join_che
 Proof.
   intros s v c j I Hr. unfold join_check, getth.
   destruct (tstate_eqb _ NOTCREATED). { apply (inv1_same s); auto. }
+  destruct (negb (th_joinable _)). { now apply inv1_ret. }
   destruct (negb _); auto.
   destruct (tstate_eqb _ DONE).
   - apply inv1_ret. apply inv1_neutral; [intro th; repeat split | auto].
@@ -1078,7 +1079,7 @@ Proof.
   - lia.
 Qed.
 
-(* ---- stack level: refuted (finding F20) ------------------------------------------------------
+(* ---- stack level: refuted (finding F23) ------------------------------------------------------
    `phys s v` is the thread whose stack vCPU v is physically executing on: after the queue block of
    a context switch and until its pending part (context save) has run, that is still the OLD
    thread, which is already READY in the run queue.  A thief may take it in that window and switch
